@@ -81,6 +81,34 @@ static void do_print(const D7& d, bool sample) {
     printf("]}\n"); emitted++;
   }
 }
+// JSON {"label":n,...} / YAML {label:n,...} / XML <label>n</label>...  ->  (label index, exponent) pairs; false if any byte is not understood
+static const char* LAB[7] = {"time", "length", "mass", "electric_current", "temperature", "substance_amount", "luminous_intensity"};
+static bool parse_serial(const std::string& s, int form, std::vector<Tok>& out) {
+  out.clear(); size_t p = 0, end = s.size();
+  if (form != 1) { if (s.size() < 2 || s[0] != '{' || s[s.size() - 1] != '}') return false; p = 1; end = s.size() - 1; }
+  bool first = true;
+  while (p < end) {
+    if (form != 1 && !first) { if (s[p] != ',') return false; p++; }
+    first = false;
+    if (form == 0) { if (s[p] != '"') return false; p++; } else if (form == 1) { if (s[p] != '<') return false; p++; }
+    int idx = -1; for (int i = 0; i < 7; i++) { size_t n = std::string(LAB[i]).size(); if (s.compare(p, n, LAB[i]) == 0 && p + n < s.size() && !isalpha((unsigned char)s[p + n]) && s[p + n] != '_') { idx = i; p += n; break; } }
+    if (idx < 0) return false;
+    if (form == 0) { if (s.compare(p, 2, "\":") != 0) return false; p += 2; } else if (form == 1) { if (s[p] != '>') return false; p++; } else { if (s[p] != ':') return false; p++; }
+    size_t q = p; if (q < end && s[q] == '-') q++; size_t d0 = q; while (q < end && isdigit((unsigned char)s[q])) q++; if (q == d0) return false;
+    int e = atoi(s.substr(p, q - p).c_str()); p = q;
+    if (form == 1) { std::string close = std::string("</") + LAB[idx] + ">"; if (s.compare(p, close.size(), close) != 0) return false; p += close.size(); }
+    out.push_back(Tok{idx + 1, e, 0});
+  }
+  return p == end;
+}
+static long n_serial = 0;
+static void do_serial(const D7& d, bool sample) {
+  Dimensions x = mk(d); std::string texts[3] = {x.JSON(), x.XML(), x.YAML()}; static const char* FN[3] = {"JSON", "XML", "YAML"};
+  for (int f = 0; f < 3; f++) { std::vector<Tok> got, want; bool ok = parse_serial(texts[f], f, got); ref_tokens(d, want); n_serial++;
+    bool same = ok && got.size() == want.size(); if (same) for (size_t i = 0; i < got.size(); i++) same &= got[i].idx == want[i].idx && got[i].exp == want[i].exp;
+    if ((!same && emitted < 100000) || sample) { printf("{\"e\":\"DimSerial\",\"form\":\"%s\",\"d\":", FN[f]); pd(d); printf(",\"ok\":%s,\"pairs\":[", ok ? "true" : "false");
+      for (size_t i = 0; i < got.size(); i++) printf("%s[%d,%d]", i ? "," : "", got[i].idx, got[i].exp); printf("]}\n"); emitted++; } }
+}
 static void do_cmp(const D7& a, const D7& b, bool sample) {
   Dimensions x = mk(a), y = mk(b);
   int lt = x < y, gt = x > y, le = x <= y, ge = x >= y, eq = x == y, ne = x != y;
@@ -106,6 +134,7 @@ int main(int argc, char** argv) {
   for (long k = 0; k < total; k++) {
     D7 d; long r = k; for (int i = 6; i >= 0; i--) { d[i] = (int)(r % W) - R; r /= W; }
     do_print(d, U(g) < pr * 4);
+    { bool allzero = true; for (int v : d) allzero &= v == 0; do_serial(d, allzero || U(g) < pr * 2); }
     // tie-forcing partners: equal leading prefix of every length, differing at position i by +-1 (and a random tail)
     do_cmp(d, d, U(g) < pr);
     for (int i = 0; i < 7; i++) {
@@ -118,8 +147,8 @@ int main(int argc, char** argv) {
   }
   // extremes of the int8 exponent range
   const int ext[] = {-128, -100, -10, -9, 9, 10, 99, 100, 127};
-  for (int e : ext) for (int i = 0; i < 7; i++) { D7 d{0, 0, 0, 0, 0, 0, 0}; d[i] = e; do_print(d, true); D7 z{0, 0, 0, 0, 0, 0, 0}; do_cmp(d, z, true); do_cmp(z, d, true); }
-  printf("{\"e\":\"DimSummary\",\"box\":%d,\"prints\":%ld,\"cmps\":%ld,\"ref_mismatch_print\":%ld,\"ref_mismatch_cmp\":%ld,\"emitted\":%ld,\"hash_sensitive\":[%d,%d,%d,%d,%d,%d,%d]}\n",
-         R, n_print, n_cmp, mm_print, mm_cmp, emitted, sens[0], sens[1], sens[2], sens[3], sens[4], sens[5], sens[6]);
+  for (int e : ext) for (int i = 0; i < 7; i++) { D7 d{0, 0, 0, 0, 0, 0, 0}; d[i] = e; do_print(d, true); do_serial(d, true); D7 z{0, 0, 0, 0, 0, 0, 0}; do_cmp(d, z, true); do_cmp(z, d, true); }
+  printf("{\"e\":\"DimSummary\",\"box\":%d,\"prints\":%ld,\"cmps\":%ld,\"ref_mismatch_print\":%ld,\"ref_mismatch_cmp\":%ld,\"emitted\":%ld,\"serials\":%ld,\"hash_sensitive\":[%d,%d,%d,%d,%d,%d,%d]}\n",
+         R, n_print, n_cmp, mm_print, mm_cmp, emitted, n_serial, sens[0], sens[1], sens[2], sens[3], sens[4], sens[5], sens[6]);
   return 0;
 }
